@@ -68,7 +68,9 @@ RTake(r, n) == IF n <= 0 \/ r = <<>> THEN <<>>
                ELSE <<Run(Head(r).a, n)>>
 
 RECURSIVE RDrop(_, _)       \* all but the first n elements
-RDrop(r, n) == IF n <= 0 \/ r = <<>> THEN r
+RDrop(r, n) == IF r = <<>> THEN r
+               ELSE IF Head(r).n <= 0 THEN RDrop(Tail(r), n)      \* an empty run denotes nothing
+               ELSE IF n <= 0 THEN r
                ELSE IF Head(r).n <= n THEN RDrop(Tail(r), n - Head(r).n)
                ELSE <<Run(Head(r).a + n, Head(r).n - n)>> \o Tail(r)
 
